@@ -57,6 +57,22 @@ let rec emit_ms m s = match m, s with
   | [], _ -> ()
   | x :: m', [] -> zline "M" x; print_string "S -\n"; emit_ms m' []
   | x :: m', y :: s' -> zline "M" x; (match y with Some v -> zline "S" v | None -> print_string "S -\n"); emit_ms m' s'
+(* silent steps ("~op"): the harness prints only how the call ended; so do we (first segment of the model / spec line) *)
+let emit_ms_sel (flags : bool list) m s =
+  let rec go f m s = match f, m, s with
+    | _, [], _ -> ()
+    | fl :: f', x :: m', s ->
+      let (y, s') = (match s with [] -> (None, []) | y :: s' -> (y, s')) in
+      let cut l = (match l with h :: _ -> [h] | [] -> []) in
+      if fl then (zline "M" (cut x); (match y with Some v -> zline "S" (cut v) | None -> print_string "S -\n"))
+      else (zline "M" x; (match y with Some v -> zline "S" v | None -> print_string "S -\n"));
+      go f' m' s'
+    | [], x :: m', s -> go [false] (x :: m') s in
+  go flags m s
+let strip_silent (ops : string list list) : bool list * string list list =
+  let fl = List.map (fun t -> match t with x :: _ when String.length x > 0 && x.[0] = '~' -> true | _ -> false) ops in
+  let st = List.map (fun t -> match t with x :: r when String.length x > 0 && x.[0] = '~' -> (String.sub x 1 (String.length x - 1)) :: r | _ -> t) ops in
+  (fl, st)
 let unq = function Inl o -> o | Inr _ -> failwith "Q not allowed in an EQ case"
 let run_eq_case hd body =
   let parts = String.split_on_char '|' body in
@@ -199,7 +215,7 @@ let run_djf_case hd body =
   let seg j = (match List.nth_opt sg j with Some x -> x | None -> []) in
   let cs = List.map (fun z -> nat_of_int (min (int_of_z z) 1000)) (seg 3) in
   match hd with
-  | ["DJF"; cls; _; n] -> let und = (cls = "UW") in emit_ms (djf_case und (ni n) es s cs) (djf_spec und (ni n) es s (seg 1) cs)
+  | ["DJF"; cls; _; n] -> let und = (cls = "UW") in emit_ms (djf_case und (ni n) es s (seg 0) (seg 1) cs) (djf_spec und (ni n) es s (seg 0) (seg 1) cs)
   | _ -> failwith "bad DJF case"
 let run_case line =
   match String.index_opt line ':' with
@@ -216,6 +232,8 @@ let run_case line =
     if (match hd with "PATH" :: _ | "DJ" :: _ -> true | _ -> false) then run_path_case hd body else
     if (match hd with "BIN" :: _ | "BINW" :: _ | "TXT" :: _ | "TXTW" :: _ | "NOFILE" :: _ -> true | _ -> false) then run_io_case hd body else
     let ops = List.filter (fun t -> t <> []) (List.map toks (String.split_on_char ';' body)) in
+    let (silent, ops) = strip_silent ops in
+    let emit_ms = emit_ms_sel silent in
     (match hd with
      | ["D"; lk; n] ->
        let hs = lk <> "none" in let ops = List.map (qwrap parse_dop) ops in
